@@ -189,3 +189,47 @@ def sec1_candidates(rng, pt=None, n_random=30):
             b = bytes([rng.choice([2, 3, 4])]) + b[1:]
         cands.append(("random", b))
     return cands
+
+
+def _norm(x):
+    if isinstance(x, (bytes, bytearray, memoryview)):
+        return bytes(x)
+    if isinstance(x, (list, tuple)):
+        return tuple(_norm(i) for i in x)
+    if isinstance(x, dict):
+        return tuple(sorted((k, _norm(v)) for k, v in x.items()))
+    return x
+
+
+def arg_forms(ctx, name, fn, args, prop_exc=()):
+    """The same byte content in another bytes-like CONTAINER (bytearray, memoryview) is the same input: a call may refuse
+    it (any exception), but if it answers, the answer equals the one for `bytes`, and the caller's buffer is left alone.
+    Used by every property whose functions take byte strings; returns the number of comparisons made."""
+    try:
+        base = _norm(fn(*args))
+    except prop_exc:
+        raise
+    except Exception:
+        return 0
+    n = 0
+    for i, a in enumerate(args):
+        if not isinstance(a, bytes):
+            continue
+        for typ in ("bytearray", "memoryview"):
+            buf = bytearray(a)
+            aa = list(args)
+            aa[i] = buf if typ == "bytearray" else memoryview(buf)
+            try:
+                r = _norm(fn(*aa))
+            except prop_exc:
+                raise
+            except Exception:
+                ctx.count("argforms.refused")
+                continue
+            n += 1
+            ctx.count("argforms.compared")
+            if r != base:
+                ctx.violation(f"arg-form/{name}/{typ}-arg{i}/different-answer", f"{name} with argument {i} as {typ} returned {r!r:.200}, with bytes {base!r:.200}")
+            if bytes(buf) != a:
+                ctx.violation(f"arg-form/{name}/{typ}-arg{i}/argument-mutated", f"{name} changed the caller's buffer {a.hex()[:80]} -> {bytes(buf).hex()[:80]}")
+    return n
